@@ -26,7 +26,11 @@ TRUSTED_BASE = [
     "harness/c08.py: recording pool / rules / slave controllers, canonicalisation of numbers to exact rationals, "
     "trio MockClock driver for Stepwise.run",
     "model/Controllers.v is hand-written; tied to src/cobald/controller/{linear,relative_supply,stepwise,switch}.py and "
-    "utility/__init__.py by the correspondence run only",
+    "utility/__init__.py by the correspondence run and, by translation (py2coq, trusted, fail-closed; gen/Gen_controllers.v "
+    "regenerated on every run, props/C08_tie.v): LinearController.regulate, RelativeSupplyController.regulate, and the "
+    "selection loops of RangeSelector.get_rule and DemandSwitch.regulate (exact loop skeleton, condition transcribed as a "
+    "comparison chain, kit/SelectIR.v); the bodies of Stepwise.run / DemandSwitch.run are matched as fixed statement lists; "
+    "_compile_lookup, DemandSwitch.__init__ and UnboundStepwise by correspondence only",
     "ideal arithmetic: binary64 rounding is not modelled (cases use exact Fractions / ints / dyadic floats)",
 ]
 ASSUMPTIONS = [
